@@ -4,6 +4,8 @@ Produces the abstract image `raw` that BiomFiles.tla judges (C04)."""
 import h5py
 import numpy as np
 
+from . import abstraction as A
+
 
 def _txt(x):
     if isinstance(x, bytes):
@@ -38,7 +40,7 @@ def dump(path, pal, scale=None):
             nnz = int(geta("nnz", -1))
         except Exception:
             nnz = -1
-        attrs = {"present": present, "id": _txt(geta("id")), "type": _txt(geta("type")),
+        attrs = {"present": present, "id": A.tid_abstract(pal, _txt(geta("id"))), "type": A.type_abstract(_txt(geta("type"))),
                  "url": _txt(geta("format-url")), "gen": _txt(geta("generated-by")),
                  "date": _txt(geta("creation-date")), "version": version, "shape": shape, "nnz": nnz}
         out = {"attrs": attrs, "groups": groups, "datasets": datasets}
